@@ -356,6 +356,12 @@ def fixed_programs():
     hi = {"names": ["q0"], "shape": [], "kind": "f", "retain": False, "terms": [[[400], [4]], [[0], [4]]]}
     progs.append({"fn": "cancel-then-call", "args": [{"$p": hi}], "kw": {"values": {"q0": 10.0}}, "extra": True})
     progs.append({"fn": "cancel-then-call", "args": [{"$p": dict(hi, kind="i")}], "kw": {"values": {"q0": 3}}, "extra": True})
+    # a cancelled term (kept as an all-zero term when coefficients are retained) through each kind of function
+    fl = {"names": ["q0", "q1"], "shape": [2], "kind": "f", "retain": False,
+          "terms": [[[1, 0], [4, 8]], [[0, 1], [0, 4]], [[0, 0], [4, 6]]]}
+    for f in ("isfinite", "absolute", "negative", "floor", "square", "sum", "any", "all", "count_nonzero", "around",
+              "mean", "cumsum"):
+        progs.append({"fn": "cancel-then-unary", "args": [{"$p": fl}], "kw": {"fn": f, "const": 2}, "extra": True})
     # construction without names: the exponent columns are q0, q1, ... by position, whatever is dropped later
     for how in ("dict", "attributes", "from_attributes", "clean"):
         progs.append({"fn": "construct-unnamed", "args": [], "extra": True,
